@@ -384,6 +384,13 @@ pub fn build_h26x(rng: &mut Rng, hevc: bool, shape: FrameShape, stamp: u64, payl
                 let n = ps_len(rng);
                 nals.push(mk(7, n, rng));
             }
+            if decorate && rng.chance(1, 4) {
+                // further, different picture parameter sets (streams with several PPS ids); the first one counts
+                for _ in 0..rng.range(1, 3) {
+                    let n = ps_len(rng);
+                    nals.push(mk(8, n, rng));
+                }
+            }
         }
     }
     if decorate && rng.chance(1, 6) {
